@@ -76,7 +76,7 @@ __CPROVER_ensures ((ENTERED && vin_seekable && whence == SEEK_CUR && offset == 0
 					(__CPROVER_return_value == vin_wc && PSF->read_current == vin_wc && PSF->write_current == vin_wc))
 /* ---- successful seeks (C06, C08) ---- */
 __CPROVER_ensures ((VALID_SEEK && !IS_TELL && __CPROVER_return_value != PSF_SEEK_ERROR) ==> __CPROVER_return_value == TARGET) /*@C06.seek_returns_requested_absolute_position*/
-__CPROVER_ensures ((VALID_SEEK && !IS_TELL) ==> (g_seek_calls == 1 && g_seek_arg == TARGET && g_seek_mode == EFF_MODE)) /*@C06.codec_positioned_at_target*/
+__CPROVER_ensures ((VALID_SEEK && !IS_TELL) ==> (g_seek_calls == 1 && g_seek_arg == TARGET && g_seek_mode == EFF_MODE)) /*@C06.codec_positioned_at_target*/ /*@C08.switching_pointer_repositions_the_file*/
 __CPROVER_ensures ((VALID_SEEK && !IS_TELL && __CPROVER_return_value != PSF_SEEK_ERROR && EFF_MODE == SFM_READ) ==>
 					(PSF->read_current == TARGET && PSF->write_current == vin_wc && PSF->last_op == SFM_READ)) /*@C08.read_seek_moves_only_read_pointer*/
 __CPROVER_ensures ((VALID_SEEK && !IS_TELL && __CPROVER_return_value != PSF_SEEK_ERROR && EFF_MODE == SFM_WRITE) ==>
